@@ -35,8 +35,16 @@ class FakeShuffle:
                 out.append(src[i // 2])
         l[:] = out
 
-    def sample(self, pop, k):
-        raise RuntimeError("sample not expected in gin")
+    def __getattr__(self, name):
+        # anything else the code under test asks of `random` (choices, sample, randrange, ...) gets the real thing,
+        # seeded per case: the code then runs with its real semantics and the oracles judge what it did
+        if name.startswith("__"):
+            raise AttributeError(name)
+        import random as _r
+        rr = self.__dict__.get("_real")
+        if rr is None:
+            rr = self.__dict__["_real"] = _r.Random(1000 * self.mode + self.k)
+        return getattr(rr, name)
 
 
 def install_shuffle(fake):
@@ -143,7 +151,10 @@ def run_ops(case):
         if r == "ok":
             st["s"] = observe(tgt)
         else:
-            st["unchanged"] = digest(observe(tgt)) == before
+            after = observe(tgt)
+            st["unchanged"] = digest(after) == before
+            if not st["unchanged"]:
+                st["s_rej"] = after     # the object lives on in this state: invariants must still hold in it
         rec["steps"].append(st)
     return rec
 
@@ -320,6 +331,13 @@ def gen_game(rng):
             "deck": stock, "discard": [d[2 * n]], "p1": d[:n], "p2": d[n:2 * n],
             "turn": rng.choice(["p1-draws-first", "p2-draws-first"]),
             "shuffle": [rng.randrange(4), rng.randrange(0, 20)], "ops": []}
+    if rng.random() < 0.2:
+        # long ricky games that exhaust the stock (several times): a shuffled (melds are rare) deal, a short stock, no
+        # turn limit, and `play` keeps the hands away from gin -- the discards are reshuffled into a new stock
+        d = list(CARDS); rng.shuffle(d)
+        case.update({"variant": "ricky", "max_turns": rng.choice([None, None, 60]), "p1": d[:7], "p2": d[7:14], "discard": [d[14]],
+                     "deck": d[15:15 + rng.choice([1, 2, 3, 4, 6, 9, 37])], "shuffle": [rng.randrange(1, 4), rng.randrange(0, 20)],
+                     "_avoid_gin": True})
     return case
 
 
@@ -363,7 +381,12 @@ def play(rng, case, probes=2, max_ops=160):
             if not g.deck:
                 op = {"k": "draw", "d": True}
         elif t.is_discard():
-            if rng.random() < 0.6 and hand:
+            if case.get("_avoid_gin") and hand and rng.random() < 0.9:
+                try:
+                    c = max(hand, key=lambda c: (g.get_deadwood([x for x in hand if x != c]), c))
+                except Exception:
+                    c = rng.choice(hand)
+            elif rng.random() < 0.6 and hand:
                 try:
                     c = min(hand, key=lambda c: g.get_deadwood([x for x in hand if x != c]))
                 except Exception:
@@ -410,3 +433,67 @@ def iter_ops(case):
             st["s"] = observe(tgt)
         rec["steps"].append(st)
         yield rec
+
+
+def helper_prelude(hand, code):
+    """Calls the library's public, pure gin helpers on the very hand about to be evaluated, under settings chosen by
+    `code` other than the ones the evaluation itself uses (deadwood limits, stop-on-gin, own meld choices, the ricky
+    valuation, the rank/suit helpers with other ace flags).  On correct code these calls have no effect; a result that
+    changes after them depends on process history (e.g. a memo table keyed too coarsely or poisoned by a filtered
+    result), which the properties that quantify over every hand exclude."""
+    from card_utils.games.gin.rummy import utils as ru
+    from card_utils.games.gin.ricky import utils as ku
+    from card_utils.games.gin import utils as gu
+    from card_utils.deck import utils as du
+    hand = list(hand)
+    k = 0
+
+    def on():
+        nonlocal k
+        k += 1
+        return (code >> (k % 16)) & 1
+
+    cands = []
+    for md in (10, 0, 5, None, 60):
+        for stop in (True, False):
+            if on():
+                try:
+                    cands = list(ru.get_candidate_melds(list(hand), max_deadwood=md, stop_on_gin=stop)) or cands
+                except Exception:
+                    pass
+    if on():
+        try:
+            ru.split_melds(list(hand))
+        except Exception:
+            pass
+    if cands and on():
+        try:
+            worst = max(cands, key=lambda c: c[0])
+            ru.split_melds(list(hand), melds=[list(m) for m in worst[1]])
+        except Exception:
+            pass
+    for n in (7, 8):
+        if on():
+            try:
+                ku.hand_points(list(hand[:n]))
+            except Exception:
+                pass
+    for s in SU:
+        ranks = [c[0] for c in hand if c[1] == s]
+        for ah, al in ((False, True), (True, False)):
+            if on():
+                try:
+                    gu.rank_straights(ranks, aces_high=ah, aces_low=al, suit=s)
+                except Exception:
+                    pass
+        for other in SU:
+            if other != s and on():
+                try:
+                    gu.rank_straights(ranks, suit=other)
+                except Exception:
+                    pass
+    for f in (gu.get_sets, du.rank_partition, du.suit_partition):
+        try:
+            f(list(hand))
+        except Exception:
+            pass
